@@ -18,6 +18,20 @@ From PV Require Import Base.U32 Base.Scalar Shape.ShapeImpl Shape.ShapeSpec Rand
   Random.RandProofs.
 Import ListNotations.
 
+(* ---- the ordinal reading of binary32 is faithful: the order of ordinals is the order of the
+   represented real numbers (val149 z = value * 2^149), with 0, 1.0f, the smallest denormal,
+   FLT_MAX and (float).9999999 where they belong *)
+Theorem C17_ordinal_order a b :
+  ((a < b <-> val149 a < val149 b) /\ (a <= b <-> val149 a <= val149 b) /\ (a = b <-> val149 a = val149 b))%Z.
+Proof. exact (ordinal_order a b). Qed.
+Print Assumptions C17_ordinal_order.
+
+Theorem C17_val149_landmarks :
+  (val149 0 = 0 /\ val149 ONE_ORD = 2 ^ 149 /\ val149 1 = 1 /\
+   val149 (INF_ORD - 1) = 2 ^ 277 - 2 ^ 253 /\ val149 GUMBEL_UP_ORD = 2 ^ 149 - 2 ^ 126)%Z.
+Proof. exact val149_landmarks. Qed.
+Print Assumptions C17_val149_landmarks.
+
 (* ---- invalid parameters (p outside [0,1], upper < lower, sd <= 0) are rejected -------------
    The front ends accept EXACTLY: a non-NaN p with 0 <= p <= 1; non-NaN bounds lower <= upper whose
    binary32 difference upper - lower is finite (hence finite bounds); a non-NaN sd > 0.
